@@ -961,9 +961,37 @@ func (g *Gen) unsetRoles() {
 	}
 }
 
+// overlapRoles: a role is held by a STRING.  An account whose address merely shares bytes with the holder's (the first 20
+// bytes of a 32-byte holder; a 32-byte address that starts with a 20-byte holder; the holder's bytes under 12 zero bytes)
+// is somebody else, for every privileged action.
+func (g *Gen) overlapRoles() {
+	enc := func(b []byte) string {
+		s, _ := bech32.ConvertAndEncode(bech32Prefix, b)
+		return s
+	}
+	raw := g.acctRaw[1]
+	long := append(append([]byte{}, raw...), g.randBytes(12)...)
+	for _, c := range []struct{ holder, submitter string }{
+		{enc(long), g.acct[1]},       // 32-byte holder, the 20-byte account that is its first 20 bytes
+		{g.acct[1], enc(long)},       // the reverse
+		{g.acct[1], enc(pad32(raw))}, // 0^12 ‖ holder
+		{enc(raw[:19]), g.acct[1]},   // a 19-byte holder, the account it is a prefix of
+	} {
+		g.config()
+		sp := g.standardGenesis(3, 2)
+		sp.owner, sp.am, sp.pauser, sp.tc = c.holder, c.holder, c.holder, c.holder
+		g.emit(Op{Kind: "genesis-init", KV: sp.kv()})
+		g.dump()
+		for _, ty := range adminTypes {
+			g.adminOp(ty, c.submitter)
+		}
+	}
+}
+
 func scnRoles(g *Gen, budget int, arg string) {
 	if arg != "lifecycle" {
 		g.unsetRoles()
+		g.overlapRoles()
 	}
 	for g.nOps < budget {
 		// a random assignment of the four stored roles over the universe (possibly shared), pending set or not
@@ -1180,6 +1208,19 @@ func (g *Gen) thresholdAboveCount() {
 	for _, signers := range [][]int{{0, 1}, {0, 1, 2}, {0}, {0, 1, 0}} {
 		m := buildMessage(0, 1, 4, g.freshNonce(1), g.rand32(), g.otherRecipient(), make([]byte, 32), g.randBytes(4))
 		g.tx("ReceiveMessage", g.opReceive(g.acct[1], m, attOpts{signers: g.sortedKeys(signers)}))
+	}
+	// ... and no original can be "validly attested under the current attester set": both replace handlers refuse
+	for _, signers := range [][]int{{0, 1}, {0, 1, 2}} {
+		sub := 1
+		orig := buildMessage(0, 4, g.domain(), uint64(40+len(signers)), pad32(g.acctRaw[sub]), g.rand32(), g.rand32(), g.randBytes(9))
+		att := g.attest(orig, attOpts{signers: g.sortedKeys(signers)})
+		g.tx("ReplaceMessage", newKV().set("from", hs(g.acct[sub])).set("message", hx(orig)).set("attestation", hx(att)).
+			set("newBody", hx(g.randBytes(5))).set("newCaller", hx(g.rand32())).set("ecr", ecrEntries(orig, att)))
+		body := buildBurnBody(0, crypto.Keccak256([]byte(mintDenom)), g.rand32(), big.NewInt(77), pad32(g.acctRaw[sub]))
+		dep := buildMessage(0, 4, 0, uint64(50+len(signers)), types.PaddedModuleAddress, messengerAddr(0), make([]byte, 32), body)
+		att2 := g.attest(dep, attOpts{signers: g.sortedKeys(signers)})
+		g.tx("ReplaceDepositForBurn", newKV().set("from", hs(g.acct[sub])).set("message", hx(dep)).set("attestation", hx(att2)).
+			set("newCaller", hx(g.rand32())).set("newMintRecipient", hx(g.rand32())).set("ecr", ecrEntries(dep, att2)))
 	}
 	am := g.role("am")
 	g.tx("UpdateSignatureThreshold", newKV().set("from", hs(am)).set("amount", "3"))
@@ -1960,6 +2001,8 @@ func scnReplace(g *Gen, budget int, arg string) {
 		if first {
 			g.replacePreamble()
 			g.replaceLongSubmitters()
+			g.thresholdAboveCount()
+			g.initStandard(3, 2)
 			first = false
 		}
 		for k := 0; k < 60 && g.nOps < budget; k++ {
